@@ -1,0 +1,46 @@
+//go:build verif
+
+package sio
+
+import (
+	"time"
+
+	eio "github.com/karagenc/socket.io-go/engine.io"
+	eioparser "github.com/karagenc/socket.io-go/engine.io/parser"
+)
+
+// Exports for the verification harness in /verif. Compiled only with the
+// `verif` build tag; nothing here changes library behaviour.
+
+// VerifBackoff wraps the unexported back-off calculator.
+type VerifBackoff struct{ b *backoff }
+
+func VerifNewBackoff(min, max time.Duration, jitter float32) *VerifBackoff {
+	return &VerifBackoff{b: newBackoff(min, max, jitter)}
+}
+
+func (v *VerifBackoff) Duration() time.Duration { return v.b.duration() }
+func (v *VerifBackoff) Attempts() uint32        { return v.b.attempts() }
+func (v *VerifBackoff) Reset()                  { v.b.reset() }
+func (v *VerifBackoff) SetAttempts(n uint32) {
+	v.b.numAttemptsMu.Lock()
+	v.b.numAttempts = n
+	v.b.numAttemptsMu.Unlock()
+}
+
+// VerifPacketQueue wraps the unexported per-connection send queue.
+type VerifPacketQueue struct{ pq *packetQueue }
+
+func VerifNewPacketQueue() *VerifPacketQueue { return &VerifPacketQueue{pq: newPacketQueue()} }
+
+func (v *VerifPacketQueue) Add(packets ...*eioparser.Packet) { v.pq.add(packets...) }
+func (v *VerifPacketQueue) Poll() (packets []*eioparser.Packet, ok, closed bool) {
+	return v.pq.poll()
+}
+func (v *VerifPacketQueue) Get() []*eioparser.Packet      { return v.pq.get() }
+func (v *VerifPacketQueue) Reset()                        { v.pq.reset() }
+func (v *VerifPacketQueue) Close()                        { v.pq.close() }
+func (v *VerifPacketQueue) PollAndSend(socket eio.Socket) { v.pq.pollAndSend(socket) }
+func (v *VerifPacketQueue) WaitForDrain(timeout time.Duration) (timedout bool) {
+	return v.pq.waitForDrain(timeout)
+}
